@@ -20,6 +20,13 @@ def cases(tier, rng):
                 continue      # no TCP relay to cut on these carriers
             line = "c14 %s %d %s" % (c, n, mode)
             cs.append({"line": line, "key": line, "tags": {"carrier": c, "n": n, "mode": mode}})
+    # run on the implementation only: the service hangs up and the application waits to be told (tunnel and direct forward path);
+    # a session whose carrier starts failing with a time-out error
+    for c in (["forward", "tcp", "ws", "kcp"] if thorough else ["forward", "tcp"]):
+        for mode in (("target-closes-wait", "app-closes", "target-closes") if c == "forward" else ("target-closes-wait",)):
+            line = "c14 %s %d %s" % (c, n, mode)
+            cs.append({"line": line, "key": line, "model": False, "tags": {"carrier": c, "n": n, "mode": mode}})
+    cs.append({"line": "c14 tcp 1 read-timeout", "key": "c14 read-timeout", "model": False, "tags": {"carrier": "memory", "n": 1, "mode": "read-timeout"}})
     if thorough:
         cs.append({"line": "c14 tcp 500 app-closes", "key": "c14 tcp 500", "tags": {"carrier": "tcp", "n": 500, "mode": "app-closes"}})
     return cs
@@ -43,6 +50,17 @@ def oracle(case, impl):
     if pr is None:
         return [("crash;carrier=" + t["carrier"], "scenario failed to run: " + impl[:150])]
     out = []
+    p = impl.split()
+    if t["mode"] == "read-timeout":
+        if pr["cpu"] > 300:
+            out.append(("busy-loop;mode=read-timeout", "%d ms of CPU in an idle second after the carrier began to fail with a time-out error" % pr["cpu"]))
+        if p[p.index("ended") + 1] != "1":
+            out.append(("session-not-ended;mode=read-timeout", "the server kept servicing a session whose carrier only returns errors: " + impl))
+        if pr["ok"] != 1:
+            out.append(("connections-failed", "the warm-up connection did not work: " + impl))
+        return out
+    if t["mode"] == "target-closes-wait" and "eof" in p and int(p[p.index("eof") + 1]) < 2 * t["n"]:
+        out.append(("no-eof-to-application;carrier=" + t["carrier"], "the service hung up on %d connections, the application was told on %s of them (%s)" % (2 * t["n"], p[p.index("eof") + 1], case["line"])))
     if pr["leak_per_conn"] > 0.3 and (pr["g"][1] - pr["g"][0]) / float(t["n"]) > 0.3:
         out.append(("goroutine-growth", "%.2f goroutines per finished logical connection stay behind (%r) in %s" % (pr["leak_per_conn"], pr["g"], case["line"])))
     if pr["fd"][1] - pr["fd"][0] > max(4, t["n"] // 4):
